@@ -214,6 +214,24 @@ def collision_cases():
                 out.append((nk, ('A', ('or', ('G', i1),
                                        ('F', ('not', i2))))))
                 out.append((nk, ('A', ('U', i1, ('X', i2)))))
+    # the SAME path formula under both quantifiers in one formula: A g and
+    # E g need different fresh atoms although their bodies print alike
+    paths = [('G', ('F', p)), ('F', ('G', p)), ('X', p), ('U', p, q),
+             ('G', p), ('F', q), ('R', q, p), ('and', ('F', p), ('F', q))]
+    shapes2 = shapes + [
+        NK(range(2), [0b11, 0b11], [{'p'}, set()]),
+        NK(range(3), [0b110, 0b010, 0b101], [set(), {'p'}, {'q'}]),
+        NK(range(4), [0b0011, 0b0100, 0b1000, 0b0100],
+           [{'p'}, {'p'}, {'q'}, set()])]
+    for g in paths:
+        Ag, Eg = ('A', g), ('E', g)
+        for nk in shapes2:
+            out.append((nk, ('and', ('not', Ag), Eg)))
+            out.append((nk, ('and', Eg, ('not', Ag))))
+            out.append((nk, ('or', Ag, ('not', Eg))))
+            out.append((nk, ('E', ('F', ('and', ('not', Ag), Eg)))))
+            out.append((nk, ('A', ('G', ('imply', Eg, Ag)))))
+            out.append((nk, ('E', ('U', Eg, Ag))))
     return out
 
 
